@@ -214,11 +214,17 @@ class History:
                 kw2["F"] = rng.choice([100, 1500.5, 0, -5])
             if rng.random() < 0.15:
                 kw2["E"] = gen.coord(rng, dp, big=False)
+            if rng.random() < 0.05:
+                kw2[rng.choice(["E", "S"])] = float("inf")     # rejected late (formatter / validator)
             self.call(op, *args, **kw2)
         elif r < 0.40:
             op = rng.choice(["move_absolute", "rapid_absolute"])
             kw = gen.axes_subset(rng, dp)
             args, kw2 = gen.as_point_form(rng, kw)
+            if rng.random() < 0.3:
+                kw2[rng.choice(["F", "S"])] = rng.choice([100, 1500.5, 0, -5, -1])
+            if rng.random() < 0.05:
+                kw2["E"] = float("nan")     # rejected by the formatter
             self.call(op, *args, **kw2)
         elif r < 0.50:
             kw = gen.axes_subset(rng, dp)
